@@ -96,6 +96,20 @@ def main():
     except Exception as e:
         self_ranges = []
         warn.append(f"is_self_mapped: {e}")
+    # lark/compiler.rs Atom::Not: is the complement intersected with the marker-free strings?
+    try:
+        src = (REPO / "parser/src/lark/compiler.rs").read_text()
+        m = re.search(r"Atom::Not\(inner\) => \{(.*?)\n            \}", src, re.S)
+        body = re.sub(r"\s+", " ", m.group(1)) if m else ""
+        not_guard = all(x in body for x in [
+            "let not = self.builder.regex.not(id);", "vec![u32::MAX; 8]", "TokTrie::SPECIAL_TOKEN_MARKER as usize",
+            "no_marker[marker / 32] &= !(1 << (marker % 32));", "RegexAst::ByteSet(no_marker)",
+            "Ok(self.builder.regex.and(vec![not, text]))"])
+        if not m:
+            warn.append("Atom::Not arm not found; LARK_NOT_EXCLUDES_MARKER default false")
+    except Exception as e:
+        not_guard = False
+        warn.append(f"Atom::Not: {e}")
     lines = ["(* Params.v — GENERATED by bin/gen_params.py from /repo on every run; do not edit *)",
              "From Coq Require Import NArith List.", "Import ListNotations.", "Open Scope N_scope."]
     for k, v in vals.items():
@@ -104,6 +118,7 @@ def main():
     lines.append(f"Definition LCM_CHECKED : bool := {'true' if lcm_checked else 'false'}.")
     lines.append(f"Definition MULTIPLE_OF_GUARD : bool := {'true' if mult_guard else 'false'}.")
     lines.append("Definition SELF_MAPPED_RANGES : list (N * N) := [" + "; ".join(f"({a}, {b})" for a, b in self_ranges) + "]%list.")
+    lines.append(f"Definition LARK_NOT_EXCLUDES_MARKER : bool := {'true' if not_guard else 'false'}.")
     lines.append(f"Definition PAR_COPY_USES_BITLEN : bool := {'true' if uses_bitlen else 'false'}.")
     text = "\n".join(lines) + "\n"
     if not OUT.exists() or OUT.read_text() != text:
